@@ -160,6 +160,12 @@ class Spec:
         buffers = {} if case.get("reuse_buffer") else None
         for i, item in enumerate(data):
             np.random.seed(seed_of(case, i + off))
+            if setref == "after_drift" and rows and rows[-1].get("ds") == "drift" and not any(r.get("setref") for r in rows):
+                # explicit set_reference in the call that directly follows a reported drift (the pending automatic
+                # re-referencing must not override the reference the user hands over)
+                det.set_reference(np.array(item, dtype=float))
+                rows.append(dict(self.observe(det), setref=True))
+                continue
             if setref is not None and i == setref:
                 det.set_reference(np.array(item, dtype=float))
             else:
